@@ -192,6 +192,7 @@ func runProtoSuite(suite string, rng *Rng, thorough bool, s *Sink) {
 			}
 		}
 		loggerAcrossConnections(s, rng)
+		parallelIoLogs(s, rng)
 		// the file logger on real files
 		n := 40
 		if thorough {
